@@ -24,7 +24,7 @@ EXPLANATION = (
     "of the arguments across the Python / Cython / C boundary against the real C prototype.")
 NOT_DECIDED = ["quadrature accuracy of the golden-spiral point set (numerical)", "analytic cap areas of overlapping spheres (numerical)"]
 ASSUMPTIONS = ["documented: area of an isolated atom = 4*pi*(r+probe)^2; unselected atoms / residues without selected atoms are reported as -1"]
-FLOORS = {"C13-R1": 1, "C13-R2": 5, "C13-R3": 2, "C13-R4": 10, "C13-R5": 7}
+FLOORS = {"C13-R1": 1, "C13-R2": 5, "C13-R3": 2, "C13-R4": 10, "C13-R5": 4}
 
 SP = "mdtraj/geometry/sasa.py"
 SC = "mdtraj/geometry/src/sasa.cpp"
@@ -162,22 +162,20 @@ def r5(ctx, cf):
     loops = [i for i, s in enumerate(body) if s["kind"] == "ForStmt"]
     if len(loops) != 1:
         raise AnalysisError("generate_sphere_points: expected one loop")
-    ex = SymExec(cf, SC)
+    lp = body[loops[0]]
+    init = [x for x in lp.get("inner", []) if isinstance(x, dict) and "kind" in x][0]
+    lv = C.ref_name(C.kids(init)[0]) if init.get("kind") == "BinaryOperator" else ([v.get("name") for v in C.kids(init) if v["kind"] == "VarDecl"] or [None])[0]
+    if lv is None:
+        raise AnalysisError("generate_sphere_points: loop variable not recognised")
+    ex = SymExec(cf, SC, symbolic_loops={lv})
     try:
-        st = ex.run(body[:loops[0]], State())[0]
-        lb = [x for x in body[loops[0]]["inner"] if isinstance(x, dict) and x.get("kind") == "CompoundStmt"][0]
-        st.env["i"] = Rat(Poly.var("i"))
-        st = ex.run(C.kids(lb), st)[0]
+        st = ex.run(body, State())[0]
     except Unsupported as e:
         raise AnalysisError("generate_sphere_points: %s" % e)
-    i, n = Rat(Poly.var("i")), Rat(Poly.var("n_points"))
-    y = st.env.get("y")
-    want_y = (2 * i + 1) / n - 1
-    ctx.decide(y is not None and y == want_y, "C13-R5", C.line(fn), SC, "generate_sphere_points", "y_i = (2i+1)/n - 1", "levels symmetric about the equator for every n",
-               "the level of point i is %r; the golden-section spiral the documentation cites uses (2i+1)/n - 1 (levels symmetric about the equator for every n, odd or even)" % (y,))
-    offs = st.env.get("offset")
-    ctx.decide(offs is not None and offs == 2 / n, "C13-R5", C.line(fn), SC, "generate_sphere_points", "offset = 2/n", "", "offset is %r" % (offs,))
-    r = st.env.get("r")
+    npar = [p_.get("name") for p_ in C.fparams(fn)]
+    i, n = Rat(Poly.var(lv)), Rat(Poly.var(npar[1] if len(npar) > 1 else "n_points"))
+    # the loop variable is identified by the loop header, the stored coordinates by the output array: no local name is consulted
+
     def opq(v):
         """(function, args) when v is a single opaque call symbol"""
         p = v.poly() if v is not None else None
@@ -186,23 +184,39 @@ def r5(ctx, cf):
             if c == 1 and len(m) == 1 and m[0][1] == 1:
                 return ex.opaque.get(m[0][0])
         return None
-    ro = opq(r)
-    ctx.decide(ro is not None and y is not None and ro[0] == "sqrt" and ro[1][0] == 1 - y * y, "C13-R5", C.line(fn), SC, "generate_sphere_points", "r = sqrt(1 - y^2)", "", "ring radius is %r" % (r,))
-    phi, inc = st.env.get("phi"), st.env.get("inc")
-    ok = phi is not None and inc is not None and phi == i * inc and len(inc.vars()) == 1 and inc.poly() is not None and inc.poly().degree() == 1
-    if ok:
-        p = inc.poly()
-        sv = list(inc.vars())[0]
-        ok = ex.opaque.get(sv, ("", []))[0] == "sqrt" and ex.opaque[sv][1][0] == 5
-        c1 = float(p.coeff_of(sv, 1).const_value())
-        c0 = float(p.coeff_of(sv, 0).const_value())
-    if ok:
-        ok = abs(c1 + 3.141592653589793) < 1e-6 and abs(c0 - 3 * 3.141592653589793) < 1e-6
-    ctx.decide(ok, "C13-R5", C.line(fn), SC, "generate_sphere_points", "phi_i = i * pi*(3 - sqrt 5) (golden angle)", "", "azimuth is %r with increment %r" % (phi, inc))
-    x0, y0, z0 = (st.env.get(("sphere_points", k)) for k in ("3*i", "1 + 3*i", "2 + 3*i"))
-    ok = y0 is not None and y is not None and y0 == y and x0 is not None and z0 is not None and r is not None and phi is not None and \
-        x0 == ex.opaque_call("cos", [phi]) * r and z0 == ex.opaque_call("sin", [phi]) * r
-    ctx.decide(ok, "C13-R5", C.line(fn), SC, "generate_sphere_points", "point i = (r cos phi, y, r sin phi)", "", "stored coordinates are %r, %r, %r" % (x0, y0, z0))
+    x0, y0, z0 = (st.env.get((npar[0], k)) for k in (repr(3 * i), repr(3 * i + 1), repr(3 * i + 2)))
+    want_y = (2 * i + 1) / n - 1
+    ctx.decide(y0 is not None and y0 == want_y, "C13-R5", C.line(fn), SC, "generate_sphere_points", "y_i = (2i+1)/n - 1", "levels symmetric about the equator for every n",
+               "the level of point i is %r; the golden-section spiral the documentation cites uses (2i+1)/n - 1 (levels symmetric about the equator for every n, odd or even)" % (y0,))
+    okx = False
+    why = "stored x, z are %r, %r" % (x0, z0)
+    if x0 is not None and z0 is not None and y0 is not None:
+        # x0 = cos(phi) * r, z0 = sin(phi) * r with r = sqrt(1 - y^2), phi = i * pi (3 - sqrt 5)
+        vx, vz = sorted(x0.vars()), sorted(z0.vars())
+        fx = [ex.opaque.get(v) for v in vx]
+        fz = [ex.opaque.get(v) for v in vz]
+        cosf = [f for f in fx if f and f[0] == "cos"]
+        sinf = [f for f in fz if f and f[0] == "sin"]
+        rx = [f for f in fx if f and f[0] == "sqrt"]
+        rz = [f for f in fz if f and f[0] == "sqrt"]
+        if len(cosf) == 1 and len(sinf) == 1 and len(rx) == 1 and len(rz) == 1 and len(vx) == 2 and len(vz) == 2:
+            phi = cosf[0][1][0]
+            r_ok = rx[0][1][0] == 1 - y0 * y0 and rz[0][1][0] == 1 - y0 * y0
+            same_phi = sinf[0][1][0] == phi
+            prod_ok = x0 == ex.opaque_call("cos", [phi]) * ex.opaque_call("sqrt", [1 - y0 * y0]) and z0 == ex.opaque_call("sin", [phi]) * ex.opaque_call("sqrt", [1 - y0 * y0])
+            inc_ok = False
+            pv = sorted(phi.vars() - {lv})
+            if phi.poly() is not None and len(pv) == 1 and phi.poly().degree() == 2:
+                sv = pv[0]
+                g = ex.opaque.get(sv)
+                c1 = phi.poly().coeff_of(lv, 1)
+                if g and g[0] == "sqrt" and g[1][0] == 5 and phi.poly().coeff_of(lv, 0).is_zero():
+                    a1 = c1.coeff_of(sv, 1).const_value()
+                    a0 = c1.coeff_of(sv, 0).const_value()
+                    inc_ok = a1 is not None and a0 is not None and abs(float(a1) + 3.141592653589793) < 1e-6 and abs(float(a0) - 3 * 3.141592653589793) < 1e-6
+            okx = r_ok and same_phi and prod_ok and inc_ok
+            why = "r ok %s, same angle in x and z %s, product form %s, angle = i*pi*(3-sqrt 5) %s" % (r_ok, same_phi, prod_ok, inc_ok)
+    ctx.decide(okx, "C13-R5", C.line(fn), SC, "generate_sphere_points", "point i = (r cos phi, y, r sin phi), r = sqrt(1 - y^2), phi = i pi (3 - sqrt 5)", "", "the stored point is not on the golden-section spiral: %s" % why)
     # neighbour pre-filter: exactly the atoms whose expanded spheres overlap
     af = cf.function(SC, "asa_frame")
     g = C.guards(af)
